@@ -41,6 +41,8 @@ def strategy(tier):
         # another input is documented first in the same invocation
         "via_link": st.sampled_from([False, False, True]),
         "other_first": st.sampled_from([False, False, True]),
+        # the output directory is the parent of the input directory
+        "out_parent": st.sampled_from([False, False, False, True]),
     })
 
 
@@ -134,7 +136,12 @@ def evaluate(case):
         res.labels.append("same-base-name-entries")
     with S.Sandbox("c15") as sb:
         inp = sb.path("in")
-        if case.get("via_link"):
+        out_parent = bool(case.get("out_parent")) and not case.get("via_link") and "in" not in tree["dirs"]
+        if out_parent:
+            inp = sb.path("p", "in")
+            S.materialize(tree, inp)
+            res.labels.append("output-is-parent-of-input")
+        elif case.get("via_link"):
             os.makedirs(sb.path("real"))
             os.symlink("real", sb.path("via"))
             inp = sb.path("via", "in")
@@ -168,7 +175,7 @@ def evaluate(case):
         if by_src["u"]:
             with open(os.path.join(cfgdir, "config.yaml"), "w") as f:
                 f.write("input:\n  exclude_filters:\n" + "".join(f"    - {p!r}\n" for p in by_src["u"]))
-        out = sb.path("out")
+        out = sb.path("p") if out_parent else sb.path("out")
         argv = [inp, "-o", out, "-s", cfg]
         if case.get("other_first"):
             first = sb.path("else", "zz_first")
@@ -188,6 +195,8 @@ def evaluate(case):
         excluded = T.make_excluded(plist, inp)
         input_excluded = any(T.pattern_matches(p, inp, True) for p in plist)
         got = S.snapshot(out) if os.path.isdir(out) else {}
+        if out_parent:
+            got = {p: v for p, v in got.items() if p != "in" and not p.startswith("in/")}      # the input tree itself
         got_files = {p for p, v in got.items() if v[0] != "dir"}
         if case.get("other_first"):
             got_files.discard("zz_f.rst")            # the other input's own page
